@@ -397,4 +397,60 @@ summaries of its callees), public pure functions have the empty write set, docum
 write at most their receiver. -/
 def check (P : Program) : Bool := P.funs.all (checkFun P.nfields P.sums)
 
+
+/-! ## Guards and half-written receivers (syntactic views of a skeleton) -/
+
+/-- The first statement of a body (the translator puts the `isinstance` guard of a function there). -/
+def Stmt.head : Stmt → Stmt
+  | .seq a _ => a
+  | c => c
+
+/-- Does the statement contain a `raise`? -/
+def Stmt.hasRaise : Stmt → Bool
+  | .raise => true
+  | .seq a b => a.hasRaise || b.hasRaise
+  | .ite a b => a.hasRaise || b.hasRaise
+  | .while c => c.hasRaise
+  | _ => false
+
+/-- The summary "writes no parameter": a statement accepted under it writes only objects it allocates. -/
+def pureSum : Summary := ⟨[], false, true, .any⟩
+
+/-- The head statement of `fd` can raise and is accepted under the empty write set. -/
+def guardHeadOk (P : Program) (fd : FunDecl) : Bool :=
+  fd.body.head.hasRaise && (aexec P.sums pureSum fd.body.head (entryState P.nfields fd)).isSome
+
+/-- Syntactic classification: walking the statement in control-flow order with `w` = "the receiver (variable 0)
+may already have been written on a path reaching this point" (a store through variable 0, or a call passing
+variable 0 in a position the callee's summary writes): is an explicit `raise` reachable with `w` set?
+Returns (such a raise exists, `w` after, can control fall through).  Paths that ended in `return` / `raise`
+do not reach what follows; exceptions propagating out of callees are not counted; loops are walked twice. -/
+def halfWrite (sums : List Summary) : Stmt → Bool → Bool × Bool × Bool
+  | .seq a b, w =>
+    let ra := halfWrite sums a w
+    if ra.2.2 then
+      let rb := halfWrite sums b ra.2.1
+      (ra.1 || rb.1, rb.2.1, rb.2.2)
+    else ra
+  | .store x _ _, w => (false, w || x == 0, true)
+  | .call _ g ys, w =>
+    (false, w || (match sums[g]? with
+      | some cs => cs.writes.any (fun i => ys.getD i 1 == 0)
+      | none => true), true)
+  | .ite a b, w =>
+    let ra := halfWrite sums a w
+    let rb := halfWrite sums b w
+    (ra.1 || rb.1, (ra.2.2 && ra.2.1) || (rb.2.2 && rb.2.1), ra.2.2 || rb.2.2)
+  | .while c, w =>
+    let r1 := halfWrite sums c w
+    let w1 := w || (r1.2.2 && r1.2.1)
+    let r2 := halfWrite sums c w1
+    (r1.1 || r2.1, w1 || (r2.2.2 && r2.2.1), true)
+  | .raise, w => (w, w, false)
+  | .ret _, w => (false, w, false)
+  | _, w => (false, w, true)
+
+/-- `fd` may leave through an explicit `raise` after having written its receiver. -/
+def mayLeaveHalfWritten (P : Program) (fd : FunDecl) : Bool := (halfWrite P.sums fd.body false).1
+
 end Pymeeus.Effects
